@@ -629,7 +629,7 @@ theorem loop_broadcast_reaches_everyone (a : PeerIdArith) (cap : Nat) (ring : Ha
   rw [this]
   simp
 
-/-- **Known finding C19:gossip-loop:peer-map:off-by-one.**  The loops of
+/-- **Fixed defect C19:gossip-loop:peer-map:off-by-one** (9dce37c).  The loops of
     `production/gossip_manager.rs` still build their address map with the arithmetic that fix
     faccb9f corrected in `GossipRouter::from_config`.  Replica 1 of a 3-node cluster (rf 3, peers
     `[n2, n3]`, router from `from_config`) queues a `TargetedDelta` for owner 2 — and the loop finds
@@ -640,16 +640,16 @@ theorem loop_pinned_starves_owner :
     ∧ memberOfIndex 1 0 = 2
     ∧ deliveredTo (loopTick .pinned 10000 (new exHash [1, 2, 3] 1 3) 1 2 (GState.new 1 (some (fromConfig 1 2 true))) [5]).1 0 = []
     ∧ deliveredTo (loopTick .fixed 10000 (new exHash [1, 2, 3] 1 3) 1 2 (GState.new 1 (some (fromConfig 1 2 true))) [5]).1 0 = [5]
-    ∧ loopArith = .pinned := by
+    ∧ loopArith = .fixed := by
   decide
 
-/-- **Known finding C19:gossip-loop:config:gossip_interval_ms=0:panics.**  `gossip_interval_ms`
+/-- **Fixed defect C19:gossip-loop:config:gossip_interval_ms=0:panics** (0da3af9).  `gossip_interval_ms`
     is an unvalidated `u64`; with 0 both gossip loops panic in `tokio::time::interval` before the
     first tick and no update is ever sent; with the period clamped to at least 1 ms every
     configured value starts a ticking loop -/
 theorem gossip_interval_zero_panics :
     loopStart false 0 = .panicZeroPeriod ∧ loopStart false 1 = .ticksEvery 1
-    ∧ (∀ ms, loopStart true ms ≠ .panicZeroPeriod) ∧ currentIntervalClamped = false := by
+    ∧ (∀ ms, loopStart true ms ≠ .panicZeroPeriod) ∧ currentIntervalClamped = true := by
   refine ⟨rfl, rfl, ?_, rfl⟩
   intro ms h
   simp [loopStart] at h
